@@ -37,10 +37,10 @@ func (r *Rng) Intn(n int) int {
 	}
 	return int(r.Next() % uint64(n))
 }
-func (r *Rng) Bool() bool        { return r.Next()&1 == 1 }
-func (r *Rng) Pct(p int) bool    { return r.Intn(100) < p }
+func (r *Rng) Bool() bool         { return r.Next()&1 == 1 }
+func (r *Rng) Pct(p int) bool     { return r.Intn(100) < p }
 func (r *Rng) Range(a, b int) int { return a + r.Intn(b-a+1) }
-func (r *Rng) Fork() *Rng        { return &Rng{s: r.Next()} }
+func (r *Rng) Fork() *Rng         { return &Rng{s: r.Next()} }
 
 // Case is one executed case.
 type Case struct {
